@@ -239,6 +239,9 @@ func check(s *sim, w workload, res *runResult) {
 	var ops []lin.Op
 	for _, c := range s.clients {
 		for _, o := range c.ops {
+			if len(o.Args) > 0 && strings.EqualFold(o.Args[0], "rconf") {
+				continue // administrative: not a keyspace command
+			}
 			op := lin.Op{Thread: o.Client, Call: o.Call, Ret: o.Ret, Pending: !o.Done, In: h.B(o.Args...)}
 			if o.Done {
 				op.Out = o.Reply
@@ -288,7 +291,10 @@ func devKinds(events []string) []string {
 	var out []string
 	for _, e := range events {
 		if e == strings.ToUpper(e[:1])+e[1:] && strings.ToUpper(e[:2]) == e[:2] {
-			out = append(out, strings.ToLower(e[:strings.Index(e, "(")]))
+			if i := strings.Index(e, "("); i > 0 {
+				e = e[:i]
+			}
+			out = append(out, strings.ToLower(e))
 		}
 	}
 	if len(out) == 0 {
